@@ -18,6 +18,18 @@
 #include "core/tokens.h"
 #include "core/Operator.h"
 
+// Parentheses and chains of unary operators recurse, so limit how deep
+// an expression may go before the stack runs out.
+#define MAX_EXPRESSION_DEPTH 256
+
+static int expression_depth = 0;
+
+struct ExpressionDepth
+{
+  ExpressionDepth()  { expression_depth++; }
+  ~ExpressionDepth() { expression_depth--; }
+};
+
 int EvalExpression::run(AsmContext *asm_context, Var &answer, bool is_paren)
 {
   char token[TOKENLEN];
@@ -25,6 +37,13 @@ int EvalExpression::run(AsmContext *asm_context, Var &answer, bool is_paren)
   VarStack var_stack;
   OperStack oper_stack;
   int count = 0;
+  ExpressionDepth depth;
+
+  if (expression_depth > MAX_EXPRESSION_DEPTH)
+  {
+    print_error(asm_context, "Expression is nested too deeply");
+    return -1;
+  }
 
   while (true)
   {
@@ -257,8 +276,15 @@ int EvalExpression::parse_unary_new(AsmContext *asm_context, Var &answer)
 {
   char token[TOKENLEN];
   int token_type;
+  ExpressionDepth depth;
 
   answer.clear();
+
+  if (expression_depth > MAX_EXPRESSION_DEPTH)
+  {
+    print_error(asm_context, "Expression is nested too deeply");
+    return -1;
+  }
 
   token_type = tokens_get(asm_context, token, TOKENLEN);
 
